@@ -10,7 +10,7 @@ import json
 import os
 import random
 
-from . import core, inputs, syntax, progs, c14
+from . import core, inputs, syntax, progs, c14, cli
 
 
 def schedules(check, n, k):
@@ -81,6 +81,15 @@ def run(tier):
             check.violation({"class": "crash-under-concurrency", "site": r.get("site")}, {"observed": r})
         elif r.get("bad"):
             check.violation({"class": "concurrent-result-differs", "what": r["bad"][0]["what"]}, {"observed": r["bad"]})
+    # (3) the pipelines in their real packaging: cmd/php-parser (GOMAXPROCS parser workers, one printer goroutine, channels), built
+    # with the race detector; every file's dump, errors and printed text must be those of the library run on that file alone
+    files = [p["src"] for p in pool_in if p["ver"] == "7.4"]
+    files += ["<?php $a = ; $b = %d;\n" % i for i in range(20)] + ["<?php function f%d( { }\n" % i for i in range(20)] + ["<?php if (%d" % i for i in range(5)]
+    rng.shuffle(files)
+    wpc = core.WorkerPool(core.build_worker())
+    for rnd in range(1 if tier == "quick" else 5):
+        for sig, rep in cli.check_cli(check, wpc, files, "7.4", [["-d", "-p", "-e"], ["-pb"]], procs_list=(2, 16), race=True):
+            check.violation(sig, rep)
     check.cov["traces_validated_against_impl"] = len(tasks)
     check.assumptions += ["Go race detector (worker built with -race, GORACE=halt_on_error=1)", "gate points: verif hook in Parser.Lex, gating writer under the printer",
                           "schedules are sampled when there are more than the tier's cap"]
